@@ -172,7 +172,7 @@ class Interp:
         if name == "or": return ew(tm.bor)
         if name == "xor": return ew(tm.bxor)
         if name == "is_finite": return ew(self._is_finite)
-        if name in ("stop_gradient", "copy", "copy_p", "reduce_precision"): return ins[0]
+        if name in ("stop_gradient", "copy", "copy_p", "reduce_precision", "sharding_constraint"): return ins[0]      # (placement only: values unchanged)
         if name == "optimization_barrier": return list(ins)
         if name == "select_n":
             def sel(c, *cases):
@@ -191,6 +191,16 @@ class Interp:
                 if a.sort == "Int" and tgt == "Real": return tm.toreal(a)
                 if a.sort == "Real" and tgt == "Int" and a.is_const: return const(math.trunc(a.val), "Int")
                 if tgt == "Bool": return tm.bnot(tm.cmp("eq", a, const(0, a.sort)))
+                if a.sort == "Real" and tgt == "Int" and getattr(a, "nan", None) is None:
+                    # float -> int conversion truncates toward zero: a fresh integer k with its defining constraints
+                    # (k <= a < k+1 for a >= 0, k-1 < a <= k for a < 0); int32 range is not modelled
+                    self._ntrunc = getattr(self, "_ntrunc", 0) + 1
+                    k = tm.var(f"trunc!{len(self.ctx.assume)}_{self._ntrunc}", "Int")
+                    kr = tm.toreal(k); zero = const(0, "Real"); one = const(1, "Real")
+                    nonneg = tm.cmp("le", zero, a)
+                    self.ctx.assume.append(tm.ite(nonneg, tm.band(tm.cmp("le", kr, a), tm.cmp("lt", a, tm.add(kr, one))),
+                                                  tm.band(tm.cmp("lt", tm.sub(kr, one), a), tm.cmp("le", a, kr))))
+                    return k
                 raise NotEncodable(f"convert_element_type {a.sort}->{tgt} on a symbolic value")
             return ew(cv)
         if name in ("floor", "ceil", "round"):
@@ -280,7 +290,9 @@ class Interp:
         raise NotEncodable(f"primitive {name} (params {list(p)})")
 
     def _is_finite(self, a):
-        return tm.TRUE          # reals; the NaN domain overrides this
+        # reals are finite; in the NaN domain (vf.nanmode) a value is non-finite exactly when its NaN flag is set (+-inf is outside the model)
+        nan = getattr(a, "nan", None)
+        return tm.TRUE if nan is None else tm.bnot(nan)
 
     def _wrap_or_oblige(self, e, out):
         if np.dtype(e.outvars[0].aval.dtype) == np.int32:
